@@ -67,7 +67,7 @@ int main (void)
       a.items[k].v = (double *) calloc ((size_t) a.items[k].n + 1, sizeof (double));
       for (int j = 0; j < a.items[k].n; ++j) { p = strtok (NULL, " \n"); a.items[k].v[j] = strtod (p, NULL); }
     }
-    int mem0 = sc_memory_status (-1);
+    int mem0 = (sc_memory_status (-1) + sc_memory_status (sc_package_id));
     simmpi_opts o; simmpi_report rep;
     simmpi_opts_default (&o);
     o.nranks = P; o.seed = seed; o.adversary = adv; o.trace_path = tpath;
@@ -79,7 +79,7 @@ int main (void)
     FILE *f = fopen (tpath, "r");
     if (f) { char buf[65536]; size_t k; while ((k = fread (buf, 1, sizeof buf, f)) > 0) fwrite (buf, 1, k, stdout); fclose (f); }
     printf ("TRACE-END\n");
-    printf ("END %d mem=%d\n", run, sc_memory_status (-1) - mem0);
+    printf ("END %d mem=%d\n", run, (sc_memory_status (-1) + sc_memory_status (sc_package_id)) - mem0);
     simmpi_report_free (&rep);
     for (size_t k = 0; k < nit; ++k) free (a.items[k].v);
     free (a.items); free (a.outbuf);
